@@ -58,7 +58,11 @@ impl ScriptRng {
     fn word(&mut self) -> u64 {
         self.words_used += 1;
         if self.words_used > self.budget {
+            // After the script the stream is uniformly random, so a correct rejection sampler accepts
+            // within a handful of candidates; millions of words mean it can never accept.  Unwinding
+            // is the only way out of the sampler's loop.
             self.exhausted = true;
+            panic!("non-termination: the sampler consumed more than {} random words without returning", self.budget);
         }
         match self.script.pop_front() {
             Some(w) => w,
